@@ -22,9 +22,10 @@ PROP = "C19"
 SERDE_T = [("Vec2", "f32", 2, "to_array"), ("Vec3", "f32", 3, "to_array"), ("Vec3A", "f32", 3, "to_array"), ("Vec4", "f32", 4, "to_array"), ("Quat", "f32", 4, "to_array"),
            ("Mat2", "f32", 4, "to_cols_array"), ("Mat3", "f32", 9, "to_cols_array"), ("Mat3A", "f32", 9, "to_cols_array"), ("Mat4", "f32", 16, "to_cols_array"),
            ("Affine2", "f32", 6, "to_cols_array"), ("Affine3A", "f32", 12, "to_cols_array"), ("DVec3", "f64", 3, "to_array"), ("DMat3", "f64", 9, "to_cols_array"),
-           ("DQuat", "f64", 4, "to_array"), ("IVec3", "i32", 3, "to_array"), ("U8Vec4", "u8", 4, "to_array"), ("I64Vec2", "i64", 2, "to_array"), ("U16Vec3", "u16", 3, "to_array")]
+           ("DQuat", "f64", 4, "to_array"), ("IVec3", "i32", 3, "to_array"), ("U8Vec4", "u8", 4, "to_array"), ("I64Vec2", "i64", 2, "to_array"), ("U16Vec3", "u16", 3, "to_array"),
+           ("BVec2", "bool", 2, "MASK"), ("BVec3", "bool", 3, "MASK"), ("BVec4", "bool", 4, "MASK"), ("BVec3A", "bool", 3, "MASK"), ("BVec4A", "bool", 4, "MASK")]
 KIND = {"f32": 10, "f64": 11, "i32": 4, "u8": 6, "i64": 5, "u16": 7, "bool": 1}
-SIMD = ("Vec3A", "Vec4", "Quat", "Mat2", "Mat3A", "Mat4", "Affine2", "Affine3A")
+SIMD = ("Vec3A", "Vec4", "Quat", "Mat2", "Mat3A", "Mat4", "Affine2", "Affine3A", "BVec3A", "BVec4A")
 
 
 def bits(e, t):
@@ -45,7 +46,12 @@ def build(config, tier):
             continue
         ln = N.lower()
         k = KIND[t]
-        tr = "quick" if (N in SIMD or N in ("Vec2", "Vec3", "Mat3", "IVec3")) else "thorough"
+        tr = "quick" if (N in SIMD or N in ("Vec2", "Vec3", "Mat3", "IVec3", "BVec3", "BVec4")) else "thorough"
+        if arr == "MASK":
+            if scalar and N in ("BVec3A", "BVec4A"):
+                continue  # no serde impl for BVec4A under scalar-math (cfg-gated in the source)
+            body0 = ("let v = mk::<%s>(); let a = <[bool; %d]>::from(v); let (r, ok) = ser::record(&v);\n" % (N, n))
+            accessor = None
         body = ("let v = mk::<%s>(); let a = v.%s(); let (r, ok) = ser::record(&v);\n"
                 "    check!(ok && r.shape == 1 && r.declared == %d && r.n == %d && r.name_len == %d, \"serialises as a tuple struct of exactly N elements under its own name\");\n"
                 "    check!(%s, \"elements in lane / column-major order, bit-for-bit\");\n"
@@ -55,6 +61,8 @@ def build(config, tier):
             " && ".join("r.kind[%d] == %d && r.bits[%d] == %s" % (i, k, i, bits("a[%d]" % i, t)) for i in range(n)),
             N, n, arr, " && ".join("%s == %s" % (bits("c[%d]" % i, t), bits("a[%d]" % i, t)) for i in range(n)),
             n + 2, n, N, n)
+        if arr == "MASK":
+            body = body.replace("let v = mk::<%s>(); let a = v.MASK(); let (r, ok) = ser::record(&v);\n" % N, body0).replace("let c = b.MASK();", "let c = <[bool; %d]>::from(b);" % n)
         obs.append(Ob("c19_%s_%s_serde" % (config, ln), PROP, body, fn="<%s as Serialize/Deserialize>" % N, kind="lemma", solver="cadical", stubs=["sse"], clauses=4, cls="bits", tier=tr, unwind=20,
                       desc="%s serde: flat tuple struct of %d %s in order, bit-exact round trip, every shorter sequence rejected (exact in-memory token stream)" % (N, n, t)))
     if not scalar:
